@@ -113,7 +113,9 @@ def append_attributes(*args: Tuple[str, Any]) -> Dict:
     for key, value in args:
         if key in result:
             # NOTE: The values do not have to be strings, e.g. `{% html_attrs attrs data-count=count %}`
-            result[key] = str(result[key]) + " " + str(value)
+            # NOTE: Each value is escaped here, unless it is already safe (e.g. `class="{{ cls }} btn"`),
+            #       so that a safe value joined with an unsafe one is not escaped for a second time.
+            result[key] = format_html("{} {}", result[key], value)
         else:
             result[key] = value
 
